@@ -499,7 +499,7 @@ func c17Released(o *Outcome, w *World, op, when string) {
 
 func genC17(r *simrt.Rand, tier string) any {
 	sc := &C17Scn{MaxConns: 1 + r.Int(4), Export: r.Pct(50), Workers: 1 + r.Int(3), Sched: RandSched(r)}
-	sc.IdleNs = []int64{0, 0, 1, 1e6, 200e6, 1e9, 5e9}[r.Int(7)]
+	sc.IdleNs = []int64{0, 0, 1, 1e6, 200e6, 1e9, 5e9, 40e9, 90e9}[r.Int(9)] // incl. values above the 5 s / 30 s per-read deadlines of the connection loop
 	if r.Pct(30) {
 		sc.Sched = SeqSched(r.Uint64())
 	}
@@ -520,7 +520,12 @@ func genC17(r *simrt.Rand, tier string) any {
 			case 2:
 				c.Steps = append(c.Steps, C17Step{Op: "lookup"})
 			case 3:
-				c.Steps = append(c.Steps, C17Step{Op: "idle", Ms: []int{1, 30, 300, 700, 2500, 12000, 35000}[r.Int(7)]})
+				ms := []int{1, 30, 300, 700, 2500, 12000, 35000}[r.Int(7)]
+				if (sc.IdleNs == 0 || sc.IdleNs >= 5e9) && r.Pct(30) {
+					// long silences only with long idle timeouts (a 1 ms reaper tick over minutes is all steps, no content)
+					ms = []int{100000, 250000, 700000}[r.Int(3)]
+				}
+				c.Steps = append(c.Steps, C17Step{Op: "idle", Ms: ms})
 			case 4:
 				c.Steps = append(c.Steps, C17Step{Op: "close"})
 			}
@@ -625,7 +630,7 @@ func shrinkC17(scAny any) []any {
 
 func init() {
 	Register(&Prop{ID: "C17", Level: "exploration", Race: true,
-		Rule: "one case = 2-6 clients opening connections at drawn instants from 3 addresses and each performing 1-6 of NULL / MNT+GETATTR / LOOKUP+READDIR calls, idle periods of 1 ms-35 s and closes, against a server with MaxConnections 1-4 and IdleTimeout from {default, 1 ns, 1 ms, 200 ms, 1 s, 5 s} (in 20% of those with >= 1 s lowered to 200 ms at runtime, idle periods then start after the reaper has had one old check interval to notice), AllowedIPs empty or excluding one of the three client addresses (30%), started through NewServer+Listen or through AbsfsNFS.Export, 0-2 admin actors issuing Stop / Close / Unexport (also repeated and concurrently) at drawn instants, 0-2 backend calls stalled for 5 ms-7 s, every lock/channel/select/network interleaving decided by the seeded scheduler (random, PCT, sticky; 30% sequential), also built with -race; monitors: (a) connections answered at least once and closed on neither side never exceed MaxConnections, (b) a client outside AllowedIPs is never served and never stays counted; connCount equals the tracked set, stays within 0..MaxConnections, covers every served open connection and is 0 once all clients have closed, (c) an answered connection idle for more than 2*IdleTimeout+100 ms has been closed by the server; an active one is not dropped, (d) after Stop returns nil no goroutine created in server.go is alive, the count is 0, later calls are never answered and the listener refuses; Stop only times out when a backend call is stalled beyond its 5 s grace, (e) after Close/Unexport of an exported server the handle table and both caches are empty (on return when nothing is stalled, and at quiescence), repeating Stop/Close/Unexport returns nil, (f) no panic, no server goroutine alive at the end of the run; non-trivial = at least two clients; distinct by event digest",
+		Rule: "one case = 2-6 clients opening connections at drawn instants from 3 addresses and each performing 1-6 of NULL / MNT+GETATTR / LOOKUP+READDIR calls, idle periods of 1 ms-700 s and closes, against a server with MaxConnections 1-4 and IdleTimeout from {default (5 min), 1 ns, 1 ms, 200 ms, 1 s, 5 s, 40 s, 90 s} (in 20% of those with >= 1 s lowered to 200 ms at runtime, idle periods then start after the reaper has had one old check interval to notice), AllowedIPs empty or excluding one of the three client addresses (30%), started through NewServer+Listen or through AbsfsNFS.Export, 0-2 admin actors issuing Stop / Close / Unexport (also repeated and concurrently) at drawn instants, 0-2 backend calls stalled for 5 ms-7 s, every lock/channel/select/network interleaving decided by the seeded scheduler (random, PCT, sticky; 30% sequential), also built with -race; monitors: (a) connections answered at least once and closed on neither side never exceed MaxConnections, (b) a client outside AllowedIPs is never served and never stays counted; connCount equals the tracked set, stays within 0..MaxConnections, covers every served open connection and is 0 once all clients have closed, (c) an answered connection idle for more than 2*IdleTimeout+100 ms has been closed by the server; an active one is not dropped, (d) after Stop returns nil no goroutine created in server.go is alive, the count is 0, later calls are never answered and the listener refuses; Stop only times out when a backend call is stalled beyond its 5 s grace, (e) after Close/Unexport of an exported server the handle table and both caches are empty (on return when nothing is stalled, and at quiescence), repeating Stop/Close/Unexport returns nil, (f) no panic, no server goroutine alive at the end of the run; non-trivial = at least two clients; distinct by event digest",
 		Gen:  genC17, New: func() any { return &C17Scn{} }, Run: runC17, Shrink: shrinkC17,
 		Real:    []string{"server.go accept loop, connection registry, idle reaper, Stop", "absnfs.go Close, operations.go Unexport/Export", "rpc/nfs handlers, worker pool, caches, handle table"},
 		Stubbed: seqStubbed})
